@@ -215,6 +215,29 @@ def check(ctx):
             case = {"paired": False, "cfg": cfg, "records": recs, "side_files": False, "fasta_out": None}
             check_case(ctx, case, d, [(rng.choice([2, 3]), rng.choice([300, 512]), None), (2, 1000, rng.randrange(1, 10**6))], dist)
             dist["-b with --revcomp"] = dist.get("-b with --revcomp", 0) + 1
+        # no reads at all (empty FASTQ / FASTA, single-end and paired): every worker stays idle, the report must still be the one-core one
+        for _ in range(2 if ctx.quick else 6):
+            paired = rng.random() < 0.4
+            base = S.Cfg(adapters=(("-a", "ad0=" + U.rand_seq(rng, 10, "ACGT")),), fasta=rng.random() < 0.4, info_file=rng.random() < 0.5,
+                         min_len=rng.choice([None, 5]), qcut=None)
+            case = {"paired": paired, "cfg": (P.PCfg(base=base, adapters2=(("-A", "bd0=" + U.rand_seq(rng, 8, "ACGT")),)) if paired else base),
+                    "records": [], "side_files": False, "fasta_out": None}
+            check_case(ctx, case, d, [(rng.choice([2, 3]), None, None), (2, 512, None)], dist)
+            dist["empty input"] = dist.get("empty input", 0) + 1
+        # paired-end FASTA in two files under consecutive buffer sizes: wherever the chunk boundary falls relative to the last record
+        # (the chunked reader may hand out an empty chunk pair before the final one), the result is that of the one-core run
+        for _ in range(1 if ctx.quick else 4):
+            ad = U.rand_seq(rng, 10, "ACGT")
+            pairs = []
+            for i in range(rng.randint(14, 22)):
+                s1 = U.rand_seq(rng, rng.randint(18, 40), "ACGT") + (ad if rng.random() < 0.5 else "")
+                s2 = U.rand_seq(rng, rng.randint(18, 40), "ACGT")
+                pairs.append((("r%d" % i, s1, None), ("r%d" % i, s2, None)))
+            case = {"paired": True, "cfg": P.PCfg(base=S.Cfg(fasta=True, adapters=(("-a", "ad0=" + ad),), info_file=rng.random() < 0.5)),
+                    "records": pairs, "side_files": False, "fasta_out": None}
+            lo = 2 * max(len(a[1]) + len(b[1]) for a, b in pairs) + 20
+            check_case(ctx, case, d, [(2, bs, None) for bs in range(lo, lo + (60 if ctx.quick else 120))], dist)
+            dist["paired FASTA, consecutive buffer sizes"] = dist.get("paired FASTA, consecutive buffer sizes", 0) + 1
         n = ctx.size(40, 400)
         for k in range(n):
             paired = rng.random() < 0.35
